@@ -96,6 +96,9 @@ class NodePeer:
             return
         if action == 'activate':
             sock.deliver(b'update m:value [0.5, {"t": 1.0}]\nupdate m:target [0.5, {"t": 1.0}]\nactive\n')
+            # an activated node keeps sending updates (so the client's no-activity heartbeat never fires)
+            for k in range(1, 16):
+                sock.deliver(f'update m:target [{k}.25, {{"t": {k}.0}}]\n'.encode(), delay=float(k))
             return
         w.nreq += 1
         n = w.nreq
@@ -156,11 +159,20 @@ def execute(case, prefix):
     world = World(sched, ANSWERS[:case['nanswers']])
     world.accept_reconnect = bool(case.get('reconnect'))
     net.listen('node', 10767, lambda: NodePeer(world))
-    out = {'results': {}, 'disconnect': None}
+    out = {'results': {}, 'disconnect': None, 'retry': {}}
 
     def body():
         client = C.SecopClient('tcp://node:10767', log=None)
         out['client'] = client
+        out['clears'] = []
+        ev = client._shutdown
+        orig_clear = ev.clear
+
+        def clear():
+            t = schedx.current_thread()
+            out['clears'].append(getattr(t, 'name', '?').split(':')[-1])
+            orig_clear()
+        ev.clear = clear
         client.connect()
         world.window = True
         sched.begin()
@@ -173,6 +185,15 @@ def execute(case, prefix):
                     out['results'][i] = ('reply', list(rep), t0, sched.now)
                 except Exception as e:          # noqa
                     out['results'][i] = ('exc', type(e).__name__, str(e)[:80], t0, sched.now)
+                    if case.get('retry') and isinstance(e, TimeoutError):
+                        # the same caller asks again after its time-out
+                        world.answers = ANSWERS[:1]
+                        t1 = sched.now
+                        try:
+                            rep = client.request(*req)
+                            out['retry'][i] = ('reply', list(rep), t1, sched.now)
+                        except Exception as e2:          # noqa
+                            out['retry'][i] = ('exc', type(e2).__name__, str(e2)[:80], t1, sched.now)
             return run
         ts = [schedx.Thread(target=caller(i, req), name=f'caller{i}') for i, req in enumerate(case['callers'])]
         if case['shutdown'] == 'user-race':
@@ -194,7 +215,6 @@ def execute(case, prefix):
             out['final_disconnect'] = ('ok', sched.now)
         except Exception as e:                  # noqa
             out['final_disconnect'] = ('exc', f'{type(e).__name__}: {e}', sched.now)
-        out['handles'] = (client._rxthread, client._txthread, client._connthread)
         # neutralise the finalizers (they would call disconnect in whichever thread allocates)
         client.callbacks.clear()
 
@@ -213,7 +233,18 @@ def judge(case, sched, x, world, out):
     if x.deadlock:
         return [('deadlock', x.deadlock)]
     if x.livelock:
-        return [('livelock:' + x.livelock.split(':')[0].replace(' ', '-'), x.livelock)]
+        stuck = [s[:3] for s in x.stuck if s[3]]
+        joins = [s for s in stuck if s[1] == 'join' and s[2].endswith('_reconnect')]
+        if joins:
+            last = (out.get('clears') or ['nobody'])[-1]
+            who = 'a-concurrent-request' if last.startswith('caller') else last.strip('_')
+            return [(f'disconnect-hangs-joining-reconnect-thread:shutdown-flag-cleared-by-{who}',
+                     f'{x.livelock}; blocked: {stuck}; the shutdown flag was cleared by {out.get("clears")}')]
+        return [('hang:' + ','.join(sorted({f'{n.split(":")[-1].rstrip("0123456789")}@{k}:{lbl.split(":")[-1]}' for n, k, lbl in stuck})),
+                 f'{x.livelock}; blocked: {stuck}')]
+    client = out.get('client')
+    if client is not None:
+        out['handles'] = (client._rxthread, client._txthread, client._connthread)
     main = x.threads[0]
     if main.exc is not None:
         return [(f'harness-main-died:{type(main.exc).__name__}', repr(main.exc))]
@@ -253,17 +284,21 @@ def judge(case, sched, x, world, out):
             exc = res[1]
             answers = [world.requests[n]['answer'] for n in mine]
             disturbed = bool(world.drops) or user_disc is not None or case['shutdown'] != 'none'
-            if exc == 'TimeoutError' and not mine and not disturbed:
+            all_prompt = all(r['answer'] in ('now', 'error', 'update-first') for r in world.requests.values())
+            if exc == 'TimeoutError' and not mine and not disturbed and all_prompt:
                 viol.append(('request-never-sent', f'caller {i} {req} timed out after {t1 - t0:g} s but the peer never received the request '
                                                    f'(peer got {[(e[1], e[2], e[3]) for e in world.events if e[0] == "peer-got"]})'))
-            elif exc == 'TimeoutError' and mine and all(a in ('now', 'update-first', 'delayed', 'hold') for a in answers) and not disturbed \
-                    and not any(world.requests[n].get('held') for n in mine):
+            elif exc == 'TimeoutError' and mine and not disturbed and all_prompt:
                 viol.append(('answered-request-timed-out', f'caller {i} {req} timed out although the peer answered it ({answers})'))
             elif exc not in ('TimeoutError', 'ConnectionError', 'HardwareError', 'ProtocolError', 'CommunicationFailedError',
                              'Full', 'ConnectionRefusedError'):
                 viol.append((f'caller-unexpected-exception:{exc}', f'caller {i} {req} ended with {exc}: {res[2]}'))
             elif exc in ('HardwareError', 'ProtocolError') and not any(a == 'error' for a in answers) and req[0] != 'frob':
                 viol.append(('error-reply-for-foreign-request', f'caller {i} {req} got {exc} {res[2]!r} but its answers were {answers}'))
+    for i, res in out.get('retry', {}).items():
+        if res[0] == 'exc' and not world.drops:
+            viol.append(('retry-after-timeout-failed', f'caller {i} repeated {callers[i]} after its time-out and got {res[1]} {res[2]!r}; '
+                                                        f'peer got {[(e[1], e[2], e[3], e[5]) for e in world.events if e[0] == "peer-got"]}'))
     # released promptly after a link loss (peer drop): every caller finished within 2 s + its remaining work
     for tdrop in world.drops:
         for i, req in enumerate(callers):
@@ -285,7 +320,8 @@ def judge(case, sched, x, world, out):
         if alive:
             viol.append(('worker-thread-still-running-after-disconnect', f'threads still alive at the end: {alive}'))
     for t in x.threads[1:]:
-        if t.exc is not None and not t.name.startswith('caller'):
+        if t.exc is not None and not t.name.startswith(('caller', 'disconnector')) and \
+                not isinstance(t.exc, (OSError, ConnectionError, TimeoutError)):
             viol.append((f'worker-thread-died:{type(t.exc).__name__}', f'thread {t.name} ended with {t.exc!r}'))
     return viol
 
@@ -294,17 +330,19 @@ def cases(tier):
     res = []
     quick = tier == 'quick'
     names = ['same-read', 'same-change', 'distinct-read', 'ping2', 'unknown+read'] if quick else list(CALLERS)
+    nans = 5 if quick else len(ANSWERS)
     for name in names:
-        deep = (not quick) or name == 'same-read'
         res.append({'name': f'{name}/sync', 'callers': CALLERS[name], 'shutdown': 'none', 'level': 'sync',
-                    'bound': 2 if deep else 1, 'dev': 1 if quick else 2, 'total': 2 if quick else 3, 'nanswers': 5 if quick else len(ANSWERS),
+                    'bound': 2, 'dev': 1 if quick else 2, 'total': 3 if quick else 4, 'free': 2 if quick else 3, 'nanswers': nans,
                     'reconnect': (not quick) and name == 'same-read'})
     for name in (['same-read', 'ping2'] if quick else names):
         res.append({'name': f'{name}/user-race', 'callers': CALLERS[name], 'shutdown': 'user-race', 'level': 'sync',
-                    'bound': 1 if quick else 2, 'dev': 1, 'total': 2 if quick else 3, 'nanswers': 5 if quick else len(ANSWERS)})
+                    'bound': 2, 'dev': 1, 'total': 2 if quick else 3, 'free': 2 if quick else 3, 'nanswers': nans})
+    res.append({'name': 'retry-after-timeout', 'callers': [CALLERS['same-read'][0]], 'shutdown': 'none', 'level': 'sync', 'retry': True,
+                'bound': 1, 'dev': 1, 'total': 2, 'free': 2, 'nanswers': nans})
     for name in (['same-read'] if quick else ['same-read', 'same-change', 'unknown+read']):
         res.append({'name': f'{name}/line', 'callers': CALLERS[name], 'shutdown': 'none', 'level': 'line',
-                    'bound': 1 if quick else 2, 'dev': 0 if quick else 1, 'total': None, 'nanswers': len(ANSWERS)})
+                    'bound': 1 if quick else 2, 'dev': 1, 'total': 2 if quick else 3, 'free': 2, 'nanswers': nans})
     return res
 
 
@@ -326,7 +364,7 @@ def root_fn(case):
     if x1.trace != x2.trace or w1.events != w2.events:
         raise core.Inconclusive(f'case {case["name"]}: the default schedule is not deterministic')
     part = core.Part()
-    part.data.append([case['name'], schedx.first_level(x1, case['bound'], case['dev'])])
+    part.data.append([case['name'], schedx.first_level(x1, case['bound'], case['dev'], case.get('free'))])
     part.extra['points_in_default_schedule'] += len(x1.points)
     part.extra['pre_window_steps'] += x1.pre_window_steps
     return part
@@ -357,7 +395,7 @@ def sub_fn(shard):
     if prefix is None:
         ex([])
     else:
-        schedx.explore(ex, case['bound'], case['dev'], prefix=prefix, total_bound=case.get('total'))
+        schedx.explore(ex, case['bound'], case['dev'], prefix=prefix, total_bound=case.get('total'), free_bound=case.get('free'))
     part.extra['schedules'] += part.evaluations
     return part
 
